@@ -7,6 +7,7 @@ import (
 	"go/types"
 	"sort"
 	"strings"
+	"time"
 
 	"golang.org/x/tools/go/ssa"
 )
@@ -30,6 +31,7 @@ type EntryCfg struct {
 	MaxPaths  int            `json:"max_paths,omitempty"`
 	Events    bool           `json:"events,omitempty"`
 	Witnesses int            `json:"witnesses,omitempty"`
+	MaxWallS  int            `json:"max_wall_s,omitempty"`
 }
 
 type Region struct {
@@ -69,6 +71,7 @@ type Engine struct {
 	errType  types.Type
 	pureMemo map[*ssa.Function]int
 	cfg      EntryCfg
+	stubs    map[string]string
 	kf       []KnownFinding
 
 	// config
@@ -96,6 +99,7 @@ type Engine struct {
 	pendingSplit []*State
 	initNotes  []string
 	stopped    bool
+	deadline   time.Time
 }
 
 // ---------------- driver
@@ -107,6 +111,10 @@ func (e *Engine) drive(work []*State, barrierOut *[]*State) {
 		st := work[len(work)-1]
 		work = work[:len(work)-1]
 		if e.cfg.MaxPaths > 0 && e.paths >= e.cfg.MaxPaths {
+			e.stopped = true
+			return
+		}
+		if e.stopped || (!e.deadline.IsZero() && e.instrs&1023 == 0 && time.Now().After(e.deadline)) {
 			e.stopped = true
 			return
 		}
@@ -1227,8 +1235,22 @@ func (e *Engine) sliceInstr(st *State, fr *Frame, x *ssa.Slice) string {
 		return "slice of ?" + where
 	}
 	var loT, hiT, maxT *Term
+	// bounds may have any integer type: widen to 64 bits by signedness
+	widen := func(v ssa.Value) (*Term, bool) {
+		t, ok := e.get(st, fr, v).(*Term)
+		if !ok {
+			return nil, false
+		}
+		if t.W == 64 {
+			return t, true
+		}
+		if _, signed := width(v.Type()); signed {
+			return Sext(t, 64), true
+		}
+		return Zext(t, 64), true
+	}
 	if x.Low != nil {
-		t, ok := e.get(st, fr, x.Low).(*Term)
+		t, ok := widen(x.Low)
 		if !ok {
 			return "opaque slice bound" + where
 		}
@@ -1237,7 +1259,7 @@ func (e *Engine) sliceInstr(st *State, fr *Frame, x *ssa.Slice) string {
 		loT = C(0, 64)
 	}
 	if x.High != nil {
-		t, ok := e.get(st, fr, x.High).(*Term)
+		t, ok := widen(x.High)
 		if !ok {
 			return "opaque slice bound" + where
 		}
@@ -1246,7 +1268,7 @@ func (e *Engine) sliceInstr(st *State, fr *Frame, x *ssa.Slice) string {
 		hiT = C(uint64(lenN), 64)
 	}
 	if x.Max != nil {
-		t, ok := e.get(st, fr, x.Max).(*Term)
+		t, ok := widen(x.Max)
 		if !ok {
 			return "opaque slice bound" + where
 		}
@@ -1263,13 +1285,14 @@ func (e *Engine) sliceInstr(st *State, fr *Frame, x *ssa.Slice) string {
 		if !e.panicVC(st, "slice bounds out of range"+where, Not(okT)) {
 			return "VC:"
 		}
+		raw := func(v ssa.Value) *Term { t, _ := e.get(st, fr, v).(*Term); return t }
 		switch {
 		case !hiT.IsConst():
-			e.pendingSplit = e.concretize(st, x.High, hiT, capN+2, "slice bound"+where)
+			e.pendingSplit = e.concretize(st, x.High, raw(x.High), capN+2, "slice bound"+where)
 		case !loT.IsConst():
-			e.pendingSplit = e.concretize(st, x.Low, loT, capN+2, "slice bound"+where)
+			e.pendingSplit = e.concretize(st, x.Low, raw(x.Low), capN+2, "slice bound"+where)
 		default:
-			e.pendingSplit = e.concretize(st, x.Max, maxT, capN+2, "slice bound"+where)
+			e.pendingSplit = e.concretize(st, x.Max, raw(x.Max), capN+2, "slice bound"+where)
 		}
 		return "SPLIT"
 	}
